@@ -129,7 +129,9 @@ func (v *printer) Printf(format string, args ...interface{}) {
 }
 
 func (v *printer) Println(args ...interface{}) {
-	if v.enab.Enabled(v.level) {
+	// Like zap.Logger, never skip levels that may have terminal behavior
+	// (DPanic and above): Fatalln must exit even when FatalLevel is disabled.
+	if v.level >= zapcore.DPanicLevel || v.enab.Enabled(v.level) {
 		v.print(sprintln(args))
 	}
 }
